@@ -140,7 +140,7 @@ package variants
 //@   loop 2:
 //@     invariant hdrs >= 1 && len(encodedLine) == len(line) && forall(j, 0, range_i, coding[line[j]] != 0) && implies(refFound, id == referenceID)
 //@   after call:Bytes#1: do if len(line) > 0 && line[0] == '>' { hdrs++ } else { if hdrs > 0 && len(line) > 0 && exists(j, 0, len(line), coding[line[j]] == 0) { gBad = true } }
-//@   ensures [strict] implies(result2 == nil, !gBad)
+//@   ensures [local.strict] implies(result2 == nil, !gBad)
 //@   ensures [found] implies(result2 == nil, result1.ID == referenceID)
 
 //@ # C04: coding / non-coding split of the genome
